@@ -61,6 +61,7 @@ def NoWrap (evs : List Event) : Prop := ∀ p ∈ outstanding evs, (sents evs).l
 def connAfter (conn : Bool) : Op → Bool
   | .connectionMade => true
   | .connectionLost => false
+  | .close _ => false          -- a local `close()` counts as the connection being down from then on
   | _ => conn
 
 /-- only the arrival of a reply delivers something, at most one delivery, and it is that reply -/
